@@ -34,7 +34,8 @@ specification yields exactly the observed responses).
   executor started on the empty store.  Hypotheses: locality of the executor, consistent routing.
 * `lin_check_sound` — the executable per-key checker run on observed histories accepts only
   per-key linearizable histories.
-* `C02_statement_pinned_counterexample` — with the pinned routing hashes a sequential run
+* `C02_statement_repaired` is the statement about the code as it is since fix 872671c.
+* `C02_statement_pinned_counterexample` — with the pinned routing hashes (before that fix) a sequential run
   `fast_set k v; GET k` of the model is not linearizable (replayed on the real code by the harness).
 -/
 namespace RedisVerif
@@ -202,11 +203,11 @@ open Shards.Str
 /-- a two-shard system with consistent hashes (`C03.exRoutes`: key 3 lives on shard 1), pooled
     slots, two clients whose requests overlap: client 0 invokes `fast_set 3 "b"`, client 1
     invokes `GET 3` before that is executed, shard 1 executes both in mailbox order, both return -/
-theorem nonvacuous_reach : ∃ s, Reach (execN Str.exec C03.exRoutes false)
-      (cmdShard C03.exRoutes false) (Shards.init SVal 2) 2 s ∧
+theorem nonvacuous_reach : ∃ s, Reach (execN Str.exec C03.exRoutes true)
+      (cmdShard C03.exRoutes true) (Shards.init SVal 2) 2 s ∧
     history s.log = [.inv 0 (.fastSet 3 [98]), .inv 1 (.single 3 .get), .res 1 (.one (.bulk [98])),
       .res 0 (.one .ok)] := by
-  have r0 : Reach (execN Str.exec C03.exRoutes false) (cmdShard C03.exRoutes false)
+  have r0 : Reach (execN Str.exec C03.exRoutes true) (cmdShard C03.exRoutes true)
       (Shards.init SVal 2) 2 (Sys.init (Shards.init SVal 2) 2) := Reach.init
   have r1 := Reach.step r0 (Step.invokePooled _ 0 (.fastSet 3 [98]) 0 [1] rfl rfl)
   have r2 := Reach.step r1 (Step.invokePooled _ 1 (.single 3 .get) 1 [] rfl rfl)
@@ -220,8 +221,7 @@ example : ∃ s : Sys (Shards SVal) (Cmd Str.sig) Reply,
     history s.log ≠ [] ∧ PerKeyLinearizable Str.exec.exec cmdKey ([] : St) (history s.log) := by
   obtain ⟨s, hr, hh⟩ := nonvacuous_reach
   refine ⟨s, by rw [hh]; simp, ?_⟩
-  apply per_key_linearizable_partial Str.exec_local C03.exRoutes false C03.exRoutes_valid (by decide)
-    (consistent_of_routeConsistent _ (C03.routeConsistent_ofTable 2 _ (by decide)) false) hr
+  apply per_key_linearizable_repaired Str.exec_local C03.exRoutes C03.exRoutes_valid (by decide) hr
   intro id req hm
   have : (.inv id req) ∈ history s.log := mem_history_of_inv s.log id req hm
   rw [hh] at this
